@@ -230,7 +230,7 @@ def sample(ctx, budget=1.0, hint=None, broken=None):
         return a / 2
 
     for it in range(int(ctx.n(120, 1500) * budget)):
-        cls = r.choice(['polygon', 'polygon', 'polygon', 'bezier', 'bezier', 'bezier', 'horizontal-chord', 'horizontal-chord', 'polygon', 'bezier', 'arc'])
+        cls = r.choice(['polygon', 'polygon', 'polygon', 'bezier', 'bezier', 'bezier', 'horizontal-chord', 'horizontal-chord', 'polygon', 'bezier', 'arc', 'mixed-arc', 'mixed-arc'])
         n_eval += 1
         if cls == 'polygon':
             n = r.randint(3, 7)
@@ -268,6 +268,35 @@ def sample(ctx, budget=1.0, hint=None, broken=None):
             want = dense_area(path)
             nontriv.add((cls, n))
             tol = 1e-4 * (abs(want) + 10)
+        elif cls == 'mixed-arc':
+            # a closed outline that MIXES an arc with lines / Beziers, away from the coordinate axes: half discs, an arc closed by a cubic,
+            # a rectangle with two rounded corners
+            rad = r.uniform(0.3, 1.5); c0 = complex(r.uniform(-6, 6), r.uniform(-6, 6)) + r.choice([0, 0, 20 + 10j]); ry = rad * r.choice([1, 1, 0.5, 2])
+            sw = r.random() < 0.5
+            rot = r.choice([0, 0, 30, 90, -45.5])
+            w = complex(math.cos(math.radians(rot)), math.sin(math.radians(rot)))
+            a_, b_ = c0 - rad * w, c0 + rad * w
+            arc_ = P.Arc(a_, complex(rad, ry), rot, False, sw, b_)
+            form_ = r.choice(['line', 'cubic', 'two-lines', 'rounded'])
+            if form_ == 'line':
+                segs = [arc_, P.Line(b_, a_)]
+            elif form_ == 'cubic':
+                segs = [arc_, P.CubicBezier(b_, b_ + complex(r.uniform(-1, 1), r.uniform(-1, 1)), a_ + complex(r.uniform(-1, 1), r.uniform(-1, 1)), a_)]
+            elif form_ == 'two-lines':
+                m_ = c0 + 1j * w * rad * r.choice([2, -2, 0.5]) * (1 if sw else -1)
+                segs = [arc_, P.Line(b_, m_), P.QuadraticBezier(m_, (m_ + a_) / 2 + 0.2, a_)]
+            else:
+                x0, y0, wd, ht, q_ = c0.real, c0.imag, r.uniform(2, 5), r.uniform(2, 4), r.uniform(0.2, 0.8)
+                segs = [P.Line(complex(x0, y0), complex(x0 + wd - q_, y0)), P.Arc(complex(x0 + wd - q_, y0), complex(q_, q_), 0, False, True, complex(x0 + wd, y0 + q_)),
+                        P.Line(complex(x0 + wd, y0 + q_), complex(x0 + wd, y0 + ht - q_)), P.Arc(complex(x0 + wd, y0 + ht - q_), complex(q_, q_), 0, False, True, complex(x0 + wd - q_, y0 + ht)),
+                        P.Line(complex(x0 + wd - q_, y0 + ht), complex(x0, y0 + ht)), P.Line(complex(x0, y0 + ht), complex(x0, y0))]
+            path = P.Path(*segs)
+            if r.random() < 0.3:
+                path = path.reversed()
+            want = dense_area(path, n=20000)
+            chord = 0.01 * min(rad, ry)
+            nontriv.add((cls, form_, rot != 0))
+            tol = 2e-4 * (abs(want) + 1)
         else:
             rad = r.uniform(0.05, 0.2); c0 = complex(r.uniform(-3, 3), r.uniform(-3, 3)); ry = rad * r.choice([1, 1, 0.5, 2, 4, 0.25, 8])
             sw = r.random() < 0.5
@@ -288,16 +317,16 @@ def sample(ctx, budget=1.0, hint=None, broken=None):
             poly_lo = rad * ry * n_lo * math.sin(math.pi / n_lo)
             tol = (math.pi * rad * ry - poly_lo) * 1.001 + 1e-12 * abs(want)
         desc = repr(path).replace('\n', ' ')
-        rep = 'svgpathtools.%s.area()' % desc
+        rep = 'svgpathtools.%s.area()' % desc if cls not in ('arc', 'mixed-arc') else 'svgpathtools.%s.area(chord_length=%r)' % (desc, chord)
         try:
-            got = path.area(chord_length=chord) if cls == 'arc' else path.area()
+            got = path.area(chord_length=chord) if cls in ('arc', 'mixed-arc') else path.area()
         except Exception as e:
             fail('area/raises', 'area() raised', {'path': desc}, repr(e), repr(want), rep)
             continue
         if abs(got - want) > tol:
             fail('area/value (%s)' % cls, 'area() is not the signed enclosed area', {'path': desc}, repr(got), repr(want), rep)
             continue
-        if cls != 'arc':
+        if cls not in ('arc', 'mixed-arc'):
             if r.random() < 0.5:
                 # other queries first (length, a point, an intersection-free bbox): whatever they cache on the segments
                 # must not leak into the reversed / transformed copies
